@@ -2254,7 +2254,7 @@ class CanMatrix(object):
                 old_prefix_len = len(old_name)-1
                 if frame.name[:old_prefix_len] == old_name[:-1]:
                     frame.name = new_name + frame.name[old_prefix_len:]
-            if old_name[0] == '*':
+            elif old_name[0] == '*':
                 old_suffix_len = len(old_name)-1
                 if frame.name[-old_suffix_len:] == old_name[1:]:
                     frame.name = frame.name[:-old_suffix_len] + new_name
